@@ -42,9 +42,16 @@ def truthy_mark(v):
 class Built:
     """Real Python objects for a tree spec."""
 
-    def __init__(self, spec, instrument=False):
+    def __init__(self, spec, instrument=False, gates=False):
         self.spec = spec
         self.journal = []
+        # gates=True (concurrency runs): `self.gate`, when set, is called as gate(kind, info) wherever code of the
+        # generated tree runs during a request: 'disp_enter' / 'disp_exit' around every `_cp_dispatch`, 'handler_fn'
+        # in a popargs handler function, 'attr' on every attribute read of a generated object (the dispatcher's
+        # getattr / hasattr walk and scan), 'probe' when a handler runs.  `tjournal` = journal per thread.
+        self.gates = gates
+        self.gate = None
+        self.tjournal = {} if gates else None
         # instrument=True: every generated `_cp_dispatch` (custom ones and the functions `cherrypy.popargs`
         # returns alike) sits behind a recording wrapper; each call appends
         #   {'node': owner class index, 'self': bound object | None, 'fn': the wrapper, 'before': [..],
@@ -66,11 +73,19 @@ class Built:
     def _probe(self, pid):
         journal = self.journal
 
+        built = self
+
         def probe(*a, **kw):
             if a and getattr(a[0], '_gen_node', False) is True:
                 a = a[1:]
-            journal.append((pid, [x if isinstance(x, str) else repr(x) for x in a],
-                            {k: (v if isinstance(v, str) else repr(v)) for k, v in kw.items()}))
+            ent = (pid, [x if isinstance(x, str) else repr(x) for x in a],
+                   {k: (v if isinstance(v, str) else repr(v)) for k, v in kw.items()})
+            journal.append(ent)
+            if built.tjournal is not None:
+                import threading
+                built.tjournal.setdefault(threading.get_ident(), []).append(ent)
+                if built.gate is not None:
+                    built.gate('probe', pid)
             return 'ran ' + pid
         probe._pid = pid
         probe.__name__ = 'probe_' + ''.join(c if c.isalnum() else '_' for c in pid)
@@ -133,6 +148,8 @@ class Built:
             if nd.get('call') is not None:
                 f = self._probe('%d()' % i)
                 ns['__call__'] = f
+            if self.gates:
+                ns['__getattribute__'] = self._gated_getattribute()
             if nd.get('falsy'):
                 ns['__bool__'] = lambda self: False
             if nd.get('conf') is not None:
@@ -158,10 +175,21 @@ class Built:
     def _target(self, t):
         return None if t is None else self.objs[t]
 
+    def _gated_getattribute(self):
+        built = self
+
+        def __getattribute__(self, name):
+            g = built.gate
+            if g is not None and not name.startswith('_gen'):
+                g('attr', name)
+            return object.__getattribute__(self, name)
+        return __getattribute__
+
     def _recording(self, owner, inner):
         """`inner` behind a wrapper that records the vpath before and after the call and what came back.
         Called like the dispatcher calls it (`dispatch(vpath=iternames)`, self bound or not)."""
         log = self.disp_log
+        built = self
 
         def _cp_dispatch(*a, **kw):
             vp = kw.get('vpath')
@@ -169,13 +197,17 @@ class Built:
                 # not the dispatcher's `dispatch(vpath=iternames)` (an exposed `_cp_dispatch` called as a page
                 # handler, say): nothing to record
                 return inner(*a, **kw)
+            import threading
             ent = {'node': owner, 'self': a[0] if a else None, 'fn': _cp_dispatch, 'before': list(vp),
-                   'after': None, 'ret': None, 'raised': None, 'hkw': None, 'params': []}
+                   'after': None, 'ret': None, 'raised': None, 'hkw': None, 'params': [],
+                   'tid': threading.get_ident()}
             log.append(ent)
             try:
                 p0 = dict(cp().serving.request.params)
             except Exception:
                 p0 = None
+            if built.gate is not None:
+                built.gate('disp_enter', owner)
             try:
                 r = inner(*a, **kw)
             except BaseException as e:
@@ -184,6 +216,8 @@ class Built:
                 raise
             ent['after'] = list(vp)
             ent['ret'] = r
+            if built.gate is not None:
+                built.gate('disp_exit', owner)
             if p0 is not None:
                 try:
                     # what the call put into request.params (update order)
@@ -232,9 +266,18 @@ class Built:
                 target = self._target(h[1])
                 log = self.disp_log
 
+                built = self
+
                 def handler_fn(**parms):
-                    if log and log[-1].get('after') is None:
-                        log[-1]['hkw'] = dict(parms)
+                    import threading
+                    tid = threading.get_ident()
+                    for ent in reversed(log):
+                        if ent.get('tid', tid) == tid:
+                            if ent.get('after') is None:
+                                ent['hkw'] = dict(parms)
+                            break
+                    if built.gate is not None:
+                        built.gate('handler_fn', i)
                     return target
                 f = cherrypy.popargs(*names, handler=handler_fn)
                 desc = {'kind': 'popargs', 'names': names, 'h': ['call', target]}
@@ -554,8 +597,14 @@ class Runner:
         self.requests = []
         reqs = self.requests
 
+        self.tseen = {}
+        tseen = self.tseen
+
         def inner_recording(path_info):
             seen.append(path_info)
+            if built.tjournal is not None:
+                import threading
+                tseen.setdefault(threading.get_ident(), []).append(path_info)
             reqs.append(cherrypy.serving.request)
             return inner(path_info)
         recording_dispatch = inner_recording
@@ -651,6 +700,64 @@ class Runner:
             'disp_log': list(self.built.disp_log),
             'outer_path': self.seen_outer[0] if self.seen_outer else None,
         }
+
+
+def get_in_thread(runner, path, method='GET', query='', req_body=None, headers=None):
+    """Runner.get for a worker thread of a concurrency run: no signal-based guard (signals belong to the main
+    thread), nothing shared is cleared; the observation is assembled from what THIS thread recorded
+    (`Built(…, gates=True)` keeps journal / dispatcher log / seen paths per thread)."""
+    import threading
+    built = runner.built
+    tid = threading.get_ident()
+    built.tjournal[tid] = []
+    runner.tseen[tid] = []
+    environ = {
+        'REQUEST_METHOD': method, 'SCRIPT_NAME': '', 'PATH_INFO': path, 'QUERY_STRING': query,
+        'SERVER_NAME': 'localhost', 'SERVER_PORT': '80', 'SERVER_PROTOCOL': 'HTTP/1.1',
+        'CONTENT_LENGTH': '0', 'wsgi.version': (1, 0), 'wsgi.url_scheme': 'http',
+        'wsgi.input': io.BytesIO(b''), 'wsgi.errors': io.StringIO(), 'wsgi.multithread': True,
+        'wsgi.multiprocess': False, 'wsgi.run_once': False, 'wsgi.url_encoding': 'utf-8',
+        'REMOTE_ADDR': '127.0.0.1', 'HTTP_HOST': 'localhost',
+    }
+    if req_body is not None:
+        environ['CONTENT_LENGTH'] = str(len(req_body))
+        environ['CONTENT_TYPE'] = 'application/x-www-form-urlencoded'
+        environ['wsgi.input'] = io.BytesIO(req_body)
+    for k, v in (headers or {}).items():
+        environ[k] = v
+    got = {}
+
+    def start_response(status, headers, exc_info=None):
+        got['status'] = status
+        got['headers'] = headers
+    n0 = len(built.disp_log)
+    try:
+        res = runner.app(environ, start_response)
+        try:
+            b''.join(res)
+        finally:
+            if hasattr(res, 'close'):
+                res.close()
+    except Exception as e:
+        got['status'] = '599 %s' % type(e).__name__
+        got.setdefault('headers', [])
+    if 'status' not in got:
+        got['status'] = '598 start_response was not called'
+        got.setdefault('headers', [])
+    allow = None
+    for k, v in got.get('headers', []):
+        if k.lower() == 'allow':
+            allow = v
+    journal = list(built.tjournal.get(tid, []))
+    seen = runner.tseen.get(tid, [])
+    return {
+        'status': int(got['status'].split()[0]),
+        'ran': [[p, a] for p, a, kw in journal],
+        'kwargs': [kw for p, a, kw in journal],
+        'allow': allow,
+        'path_info': seen[0] if seen else None,
+        'disp_log': [e for e in built.disp_log[n0:] if e.get('tid') == tid],
+    }
 
 
 def obj_for_pid(built, pid):
